@@ -6,6 +6,7 @@ volatile-qualified location (goto-instrument --nondet-volatile), strlen is a stu
 verifier is a stub whose *precondition* states what RLBox must hand it: null or an object allocated by this call in
 application memory, with the right size and terminator."""
 from vlib.unit import Unit, Inst, find_func
+import vlib.replay_c09  # registers the hook-based native replays
 from .common import cs, PRE_GHOST, mi
 from .C03 import REGIONS, OBJVIEW
 
@@ -78,6 +79,7 @@ def cav_ptr_inst(pointee, cpointee, guest_bytes, tier):
     return Inst('c09_copy_and_verify_ptr_%s' % pointee, 'tainted<%s*, vsbx>& p, VPtr%s verifier' % (pointee, 'I' if pointee == 'int' else 'L'), 'p.copy_and_verify(verifier);', cl, h,
                 leaves=['dynamic_check'], prop=PROP, root_name='copy_and_verify', tier=tier, pre=GH, pre_defines=OBJVIEW, post_protos=stub,
                 opts={'param_fn_stubs': {'verifier': 'verifier_stub'}, 'amp_star': True}, extra_replace=['verifier_stub'], nondet_volatile=True,
+                replay={'kind': 'cav_content', 'ctype': pointee, 'gtype': {'int': 'int32_t', 'long': 'int32_t'}[pointee], 'no_inputs': True},
                 note='pointee occupies %d guest bytes at the end of a %s-typed read' % (guest_bytes, pointee))
 
 
@@ -154,11 +156,14 @@ def string_inst(kind, recv, tier):
                 root_name='copy_and_verify_string', tier=tier, pre=GH, pre_defines=OBJVIEW, post_protos=post, opts={'param_fn_stubs': {'verifier': 'verifier_stub'}, 'amp_star': True},
                 extra_replace=extra, object_bits=12, nondet_volatile=True, loop_contracts=lcs, timeout=600,
                 root_pick=lambda tu, fn, V=V: find_func(tu, 'copy_and_verify_string', None, lambda f, rn: V in f.get('mangledName', '') and (('16tainted_volatile' in f.get('mangledName', '').split('22copy_and_verify_string')[0]) == (recv == 'tainted_volatile'))),
+                replay={'kind': 'cav_string', 'verifier': kind, 'recv': recv, 'no_inputs': True},
                 note='strlen is an adversarial stub; %s verifier; receiver %s<char*>' % (kind, recv))
 
 
 # ---- content of the snapshot (sequential view, no adversary): what the verifier sees is the guest-ABI decoding of the source bytes
 GUEST = {'int': ('int', 'int', 4), 'long': ('long', 'int', 4), 'unsigned short': ('unsigned short', 'unsigned short', 2), 'unsigned long': ('unsigned long', 'unsigned int', 4), 'char': ('char', 'char', 1)}
+
+GTYPE = {'int': 'int32_t', 'long': 'int32_t', 'unsigned short': 'uint16_t', 'unsigned long': 'uint32_t', 'char': 'char'}
 
 
 def content_ptr_inst(pointee, tier):
@@ -178,6 +183,7 @@ def content_ptr_inst(pointee, tier):
     return Inst('c09_content_ptr_%s' % tag, 'tainted<%s*, vsbx>& p, VC_%s verifier' % (pointee, tag), 'p.copy_and_verify(verifier);', cl, h,
                 leaves=['dynamic_check'], prop=PROP, root_name='copy_and_verify', tier=tier, pre=GH + ' void *g_src; _Bool g_null_src;\n', pre_defines=OBJVIEW, post_protos=stub,
                 opts={'param_fn_stubs': {'verifier': 'verifier_stub'}, 'amp_star': True}, extra_replace=['verifier_stub'],
+                replay={'kind': 'cav_content', 'ctype': pointee, 'gtype': GTYPE[pointee], 'no_inputs': True},
                 note='pointee %s occupies %d guest bytes; every byte position in sandbox memory including the last %d bytes' % (pointee, gb, gb))
 
 
@@ -204,7 +210,7 @@ def content_range_inst(el, tier):
                 leaves=['dynamic_check', CHECK_RANGE, 'vsbx.impl_is_in_same_sandbox'], prop=PROP, root_name='copy_and_verify_range', tier=tier,
                 pre=GH + ' unsigned long g_count; unsigned long g_w; void *g_src;\n', pre_defines=OBJVIEW, post_protos=stub,
                 opts={'param_fn_stubs': {'verifier': 'verifier_stub'}, 'amp_star': True}, extra_replace=['verifier_stub'], object_bits=12,
-                loop_contracts={('copy_and_verify_range_helper', 0): lc}, timeout=900,
+                loop_contracts={('copy_and_verify_range_helper', 0): lc}, timeout=900, replay={'kind': 'cav_content', 'ctype': el, 'gtype': GTYPE[el], 'range': True, 'no_inputs': True},
                 note='element g_w is an arbitrary witness index: the loop invariant carries "every copied element equals the guest decoding of its source element"')
 
 
